@@ -297,7 +297,10 @@ fn archives(rep: &mut Report, arch_lines: &[Value], args: &Args, nworkers: usize
 // whole validation runs over a damaged cache
 
 fn runs(rep: &mut Report, args: &Args) {
+    let base = if std::path::Path::new("/dev/shm").is_dir() { std::path::PathBuf::from("/dev/shm") } else { std::env::temp_dir() };
+    let state = tempfile::Builder::new().prefix("vh-runs-").tempdir_in(base).expect("tempdir");
     let mut w = Worker::new("runs");
+    w.env.push(("VERIF_RUNS_STATE".into(), state.path().join("state").to_string_lossy().into_owned()));
     w.limit = Duration::from_secs(if args.thorough() { 20 } else { 10 });
     w.ensure();
     let pre = w.preamble.clone();
